@@ -37,6 +37,9 @@ func (w *World) checkFrames(prop string) []*Obligation {
 		if fd.IsCall {
 			kind = "callers"
 		}
+		if fd.IsArg {
+			kind = "argpolicy"
+		}
 		fam := shortPkg(fd.Pkg) + "." + fd.Comp + "#" + kind
 		o := &Obligation{ID: fam + "@1", Family: fam, Kind: kind, Func: shortPkg(fd.Pkg) + "." + fd.Comp, Goal: "true", Backend: "syntactic",
 			Text: fmt.Sprintf("%s %s: %s", kind, fd.Comp, strings.Join(fd.Funcs, ", "))}
@@ -45,7 +48,9 @@ func (w *World) checkFrames(prop string) []*Obligation {
 			allowed[f] = true
 		}
 		var offenders []string
-		if fd.IsCall {
+		if fd.IsArg {
+			offenders = w.argOffenders(fd, allowed)
+		} else if fd.IsCall {
 			offenders = w.callersOutside(fd, allowed)
 		} else {
 			offenders = w.writersOutside(fd, allowed)
@@ -412,4 +417,81 @@ func (w *World) checkRecursion(prop string) []*Obligation {
 		out = append(out, o)
 	}
 	return out
+}
+
+// argOffenders: calls of fd.Comp (function or method of package fd.Pkg) whose argument number ArgIndex is not the
+// literal ArgLit, made from functions outside the allow-list.
+func (w *World) argOffenders(fd *FrameDecl, allowed map[string]bool) []string {
+	pi := w.Pkgs[fd.Pkg]
+	if pi == nil {
+		return []string{"!package " + fd.Pkg + " not loaded"}
+	}
+	target := pi.Funcs[fd.Comp]
+	var tobj types.Object
+	if target != nil {
+		tobj = pi.P.TypesInfo.Defs[target.Name]
+	} else {
+		// interface method Type.Method
+		parts := strings.SplitN(fd.Comp, ".", 2)
+		if len(parts) == 2 {
+			if tn := pi.P.Types.Scope().Lookup(parts[0]); tn != nil {
+				if it, ok := tn.Type().Underlying().(*types.Interface); ok {
+					for i := 0; i < it.NumMethods(); i++ {
+						if it.Method(i).Name() == parts[1] {
+							tobj = it.Method(i)
+						}
+					}
+				}
+			}
+		}
+	}
+	if tobj == nil {
+		return []string{"!function " + fd.Comp + " no longer exists"}
+	}
+	var offenders []string
+	for _, p := range w.Pkgs {
+		info := p.P.TypesInfo
+		for _, file := range p.P.Syntax {
+			for _, d := range file.Decls {
+				fn, ok := d.(*ast.FuncDecl)
+				if !ok || fn.Body == nil {
+					continue
+				}
+				key := shortPkg(p.Path) + "." + funcKey(fn)
+				if allowed[key] || (p.Path == fd.Pkg && allowed[funcKey(fn)]) {
+					continue
+				}
+				ast.Inspect(fn.Body, func(n ast.Node) bool {
+					call, ok := n.(*ast.CallExpr)
+					if !ok {
+						return true
+					}
+					id := identOf(ast.Unparen(call.Fun))
+					if id == nil {
+						return true
+					}
+					f, ok := info.Uses[id].(*types.Func)
+					if !ok || f.Origin() != tobj {
+						return true
+					}
+					if fd.ArgIndex >= len(call.Args) {
+						offenders = append(offenders, key+" ("+w.pos(call.Pos())+": too few arguments)")
+						return true
+					}
+					arg := ast.Unparen(call.Args[fd.ArgIndex])
+					if lit, ok := arg.(*ast.Ident); ok && lit.Name == fd.ArgLit {
+						if _, isConst := info.Uses[lit].(*types.Const); isConst || lit.Name == "nil" {
+							return true
+						}
+					}
+					if bl, ok := arg.(*ast.BasicLit); ok && bl.Value == fd.ArgLit {
+						return true
+					}
+					offenders = append(offenders, key+" ("+w.pos(call.Pos())+")")
+					return true
+				})
+			}
+		}
+	}
+	return offenders
 }
